@@ -703,6 +703,17 @@ pub fn mutations(case: &Case, parts: &Parts, other: Option<&Parts>, density: usi
             p.lr.pop();
             pushm(&mut v, "proof rounds - 1".into(), Alter::Proof(p));
         }
+        // far too many rounds, all of them decodable points: the round count reaches and passes the word size
+        if let Some(last) = parts.lr.last().copied() {
+            if density >= 2 || rot % 4 == 0 {
+                let target = [64usize, 65, 63, 70][rot % 4];
+                let mut p = parts.clone();
+                while p.lr.len() < target {
+                    p.lr.push(last);
+                }
+                pushm(&mut v, "proof rounds padded with copies of the last round up to the word size".into(), Alter::Proof(p));
+            }
+        }
     }
     // degree tag with reserved high bits set (same low bits)
     for hi in [0x10u8, 0x80, 0xF0, 0x08] {
